@@ -5,7 +5,7 @@ TB_COMMON = [
     'Coq 8.16.1 kernel (coqc; full .vo build, no -vos); vm_compute used for table lemmas and Examples, native_compute not used',
     'axioms: none declared; Print Assumptions of every property theorem is re-run by each check and must be "Closed under the global context" (or list section variables only)',
     'gentables (harness/cmd/gentables): translator from /repo Go sources to coq/gen/Tables.v, re-run on every check',
-    'extraction: ExtrOcamlBasic + ExtrOcamlString only (bool, option, unit, list, prod, sumbool, ascii->char, string->char list); no Extract Constant; Z, N, positive, nat stay inductive; OCaml 4.13.1',
+    'extraction: ExtrOcamlBasic + ExtrOcamlString (bool, option, unit, list, prod, sumbool, ascii->char, string->char list); one Extract Constant (List.rev => Stdlib.List.rev, same function, linear); Z, N, positive, nat stay inductive; OCaml 4.13.1',
     'correspondence check: Go observer (harness/cmd/observe, built against /repo working tree) vs extracted model in ocaml/driver; differential testing bounded by generator quality',
     'oracle record (Go strconv/unicode/fmt/encoding-json leaf behaviour) served to the model by harness/cmd/oracle: the model runs with the same standard library as the implementation',
     'the hand-written model coq/Model/*.v (lexer, parser, constructors, reducers, Validate, fmt printers, both SQL renderers, JSON encoder/decoder, generic driver)',
